@@ -542,6 +542,9 @@ func TestVerifKeepAlive(t *testing.T) {
 	}
 	if p := os.Getenv("VERIF_REPLAY"); p != "" {
 		replay(p, "replay")
+		if n == 0 {
+			out.line("replay", "reset", "ok", "reset") // a replay of the other stream of this engine
+		}
 		return
 	}
 	if p := os.Getenv("VERIF_CORPUS"); p != "" {
